@@ -63,9 +63,13 @@ def natural(ctx, n, plain_only=False, with_value=False):
 
 def vocab_fates(ctx, names=None, framings=("none", "proto2", "proto4frame")):
     """Fate matrix: every call-making opcode x every way of disposing of the value."""
-    names = names or [("vp_sink", "hit"), ("__builtin__", "exec"), ("builtins", "getattr"),
-                      ("os", "system"), ("vp_other", "hit")]
-    for (m, n) in names:
+    if names is None:
+        names = [("vp_sink", "hit"), ("__builtin__", "exec"), ("builtins", "getattr"), ("os", "system"),
+                 ("vp_other", "hit")]
+        # special-cased attribute names, from builtins and from a non-stdlib module; fewer framings each
+        names += [("builtins", n) for n in gen.SPECIAL_NAMES] + [("vp_sink", n) for n in gen.SPECIAL_NAMES]
+    for i, (m, n) in enumerate(names):
+        frs = framings if i < 5 else framings[:1] if ctx.tier == "quick" else framings
         for r in gen.RESOLVE_OPS:
             for c in gen.CALL_OPS:
                 call = gen.make_call(r, c, m, n, ["x", 1])
@@ -73,7 +77,7 @@ def vocab_fates(ctx, names=None, framings=("none", "proto2", "proto4frame")):
                     continue
                 for fate in gen.FATES:
                     body = gen.apply_fate(call, fate)
-                    for fr in framings:
+                    for fr in frs:
                         data = gen.frame(body, fr)
                         if ctx.mine(data):
                             yield f"voc-{r}-{c}-{fate}-{fr}", data, {"module": m, "name": n}
